@@ -1,6 +1,7 @@
 #!/bin/sh
-# run the pinned suite and compare passes with BASELINE stable_pass
-cd /repo && /venv/bin/python -m pytest -ra -q -p no:cacheprovider --timeout=900 --continue-on-collection-errors --junitxml=/tmp/junit_$$.xml >/tmp/pytest_$$.log 2>&1
+# run the pinned suite (of the tree given as $1, default /repo) and compare passes with BASELINE stable_pass
+TREE="${1:-/repo}"
+cd "$TREE" && PYTHONPATH="$TREE/src" /venv/bin/python -m pytest -ra -q -p no:cacheprovider --timeout=900 --continue-on-collection-errors --junitxml=/tmp/junit_$$.xml >/tmp/pytest_$$.log 2>&1
 /venv/bin/python - <<PY
 import json, xml.etree.ElementTree as ET
 base=set(json.load(open('/root/.vp/BASELINE.json'))['stable_pass'])
